@@ -23,6 +23,9 @@ import time
 
 HERE = os.path.dirname(os.path.abspath(__file__))
 sys.path.insert(0, HERE)
+# a run against a scratch copy (VERIF_REPO set by tools/seed_matrix.sh) must not overwrite the evidence of /repo
+SCRATCH = os.environ.get("VERIF_REPO", "/repo") not in ("/repo", "/repo/")
+OUT = os.path.join(HERE, "out", "scratch") if SCRATCH else HERE
 
 from pyvc import front  # noqa: E402
 from pyvc.run import run_units  # noqa: E402
@@ -170,7 +173,7 @@ def main() -> int:
         else:
             still_unknown.append(o)
     # ---- replay new violations ---------------------------------------------------------------------
-    os.makedirs(os.path.join(HERE, "replays"), exist_ok=True)
+    os.makedirs(os.path.join(OUT, "replays"), exist_ok=True)
     lines = []
     replays = []
     if violations:
@@ -182,7 +185,7 @@ def main() -> int:
         for unit_name, os_ in by_unit.items():
             first = sorted(os_, key=lambda o: (o["hyps"], o["name"]))[0]
             h = hashlib.sha256((first["name"] + first.get("path", "")).encode()).hexdigest()[:10]
-            rp = os.path.join(HERE, "replays", f"{prop}-{h}.json")
+            rp = os.path.join(OUT, "replays", f"{prop}-{h}.json")
             label = "regressed" if baseline.get(first["name"]) == "proved" else ("new-site" if first["name"] not in baseline else "failing-on-baseline")
             native = driver.replay_for(prop, first, [o["name"] for o in os_])
             doc = {"property": prop, "unit": unit_name, "obligation": first["name"], "path": first.get("path"), "baseline": label,
@@ -206,7 +209,7 @@ def main() -> int:
             bounded_fallback["ran"].append({"scenario": name, "exit": code})
             if code == 1:
                 h = hashlib.sha256(name.encode()).hexdigest()[:10]
-                rp = os.path.join(HERE, "replays", f"{prop}-scenario-{h}.json")
+                rp = os.path.join(OUT, "replays", f"{prop}-scenario-{h}.json")
                 doc = {"property": prop, "unit": "; ".join(r["unit"] for r in undecided_units) or "(unknown obligations)", "obligation": "(deductive check undecided: " + "; ".join(str(r["error"]) for r in undecided_units)[:300] + ")",
                        "path": "", "baseline": "n/a", "verifier": {"verdict": "undecided"}, "found_by": "bounded native scenario (stand-in, not a proof)",
                        "native_replay": {"reproduced": True, "scenario": name, "command": f"PYTHONPATH={driver.REPO}/src {driver.PY} {HERE}/replay/scenarios_run.py {name}", "output": out[-1500:]}}
@@ -290,8 +293,8 @@ def main() -> int:
         "wall_s": wall,
         "violations": len(violations),
     }
-    os.makedirs(os.path.join(HERE, "evidence"), exist_ok=True)
-    json.dump(ev, open(os.path.join(HERE, "evidence", f"{prop}.json"), "w"), indent=1)
+    os.makedirs(os.path.join(OUT, "evidence"), exist_ok=True)
+    json.dump(ev, open(os.path.join(OUT, "evidence", f"{prop}.json"), "w"), indent=1)
     print(f"{prop}: {len(goals)} obligations, {len(proved)} discharged, {len(failed)} failed ({sum(len(v[1]) for v in known_hits.values())} attributed to known findings), "
           f"{len(still_unknown)} undecided, {len(units)} units, {wall}s")
     if violations:
